@@ -19,7 +19,7 @@ func init() {
 		Run: c14,
 		Explanation: "Decides the shapes in the package manager that keep one active, last-numbered current revision: (R14.1) the current revision is applied only after the revisions loop ran to completion, in which every other revision on the DesiredState==Active edge is set Inactive and applied with every failure (conflicts included) leaving the reconcile; Active is stored into the current revision only on the automatic/unset-policy edge; " +
 			"(R14.2) the current revision is renumbered after the loop to the running maximum over all listed revisions plus one, and the maximum is updated on every iteration; (R14.3) the history delete is gated by limit!=nil, *limit!=0 and len(revisions) > *limit+1; (R14.4) within an iteration the garbage-collection candidate is recorded only after the name!=currentRevision edge, and the object deleted is that candidate; " +
-			"(R14.5) the revision name and currentRevision derive only from the revisioner, whose non-empty results are FriendlyID(package name, digest or source) or the stored current revision under IfNotPresent with an unchanged source. (R14.6) the package reconciler writes revisions with the patching applicator, whose patch carries the resourceVersion of the listed copy.",
+			"(R14.5) the revision name and currentRevision derive only from the revisioner, whose non-empty results are FriendlyID(package name, digest or source) or the stored current revision under IfNotPresent with an unchanged source. (R14.6) the package reconciler writes revisions with the patching applicator, whose patch carries the resourceVersion of the listed copy. (R14.7) the three revision-list accessors hand every listed revision to the reconciler (complete projection).",
 		NotDecided:  []string{"'at every instant' across crashes between the applies", "registry behaviour (digest per tag)", "uniqueness of FriendlyID truncations"},
 		Assumptions: []string{"Applicator.Apply persists DesiredState", "the listed revisions are all revisions of the package"},
 	})
